@@ -45,10 +45,20 @@ theorem alookup_aerase_ne {α : Type} (k k2 : Nat) (l : List (Nat × α)) (h : k
     by_cases h1 : k' = k
     · subst h1
       have : ¬ k' = k2 := fun e => h e.symm
-      simp [alookup, this]
+      simp [alookup, this, ih]
     · by_cases h3 : k' = k2
       · subst h3; simp [h1, alookup]
       · simp [h1, alookup, h3, ih]
+
+theorem alookup_aerase_self {α : Type} (k : Nat) (l : List (Nat × α)) : alookup k (aerase k l) = none := by
+  induction l with
+  | nil => rfl
+  | cons x xs ih =>
+    obtain ⟨k', v'⟩ := x
+    unfold aerase
+    by_cases h1 : k' = k
+    · simp [h1, ih]
+    · simp [h1, alookup, ih]
 
 namespace App
 
